@@ -115,6 +115,7 @@ def curve_refine(ctx, p, mult, d, rational):
 def _helper_shapes(tier):
     out = [dict(p=2, mult=[1], mode='knot_list', d=1),
            dict(p=2, mult=[], mode='add_knot_list', d=1),
+           dict(p=2, mult=[1], mode='add_knot_list', d=1),          # the additional knot may coincide with an interior knot
            dict(p=1, mult=[1], mode='knot_list', d=2),
            dict(p=3, mult=[], mode='knot_list', d=1),
            dict(p=2, mult=[2], mode='default', d=1)]
